@@ -320,7 +320,8 @@ func runC17E2E(t *testing.T, rng *rand.Rand, rec *sim.Rec, tier string, caseNo i
 	gen := &simpleGen{n: n}
 	// the operator's realm is used exactly as configured, whatever its letter case or script
 	realm := pick(rng, []string{"verif.test", "Pion.LY", "EXAMPLE.ORG", "Straße.example", "re%alm", "пример.рф"})
-	user := pick(rng, []string{"alice", "room42:device7", "@alice:example.org", "a b", "50%off"})
+	user := pick(rng, []string{"alice", "room42:device7", "@alice:example.org", "a b", "50%off",
+		"jean\u00a0luc", "room\u20097", "\u3000padded\u3000", "na\u00efve-\u00fc\u00df", "\u202fthin"}) // (no-break, thin, ideographic spaces: bytes like any others)
 	srv, err := turn.NewServer(turn.ServerConfig{
 		Realm: realm, AuthHandler: kind.handler(secret), LoggerFactory: logs,
 		PacketConnConfigs: []turn.PacketConnConfig{{PacketConn: lsock, RelayAddressGenerator: gen}},
